@@ -48,3 +48,13 @@ Print Assumptions C11_simplify_extras_indep.
 Print Assumptions C11_simplify_extras_indep_sem.
 Print Assumptions C11_simplify_extras_wf.
 Print Assumptions C11_with_extra.
+
+(** ** [restrict] on ids ([restrict_i], Interner/OpsModel.v: Edges::map with complemented edges, create_node):
+    the id it returns is exactly the id of the interned L1 result, in every reachable store *)
+From PV Require Import Interner.Store Interner.StoreProofs Interner.Intern Interner.AndModel Interner.AndProofs Interner.OpsModel Interner.OpsProofs.
+Theorem C11_simplify_extras_on_ids : forall (fuel : nat) (E : list str) (s : ist (var:=var) (val:=val)) (x : nid),
+  SOKwf is_range s -> valid (length (fst s)) x -> (rank x < fuel)%nat ->
+  let '(s', r) := restrict_i fuel (extras_present E) s x in
+  SOKwf is_range s' /\ intern (fst s') (m_simplify_extras E (unfold (fst s) x)) = (fst s', r).
+Proof. exact restrict_i_refines_wf. Qed.
+Print Assumptions C11_simplify_extras_on_ids.
